@@ -11,7 +11,7 @@ import sys
 OUTCOMES = ['done', 'failupd', 'failnone', 'raise', 'none', 'notpair', 'badstatus',
             'badupdate', 'waitstatus', 'intstatus']
 # model view of an outcome: (has_upd, ok)
-OUTCOME_MODEL = {'done': (True, True), 'failupd': (True, False), 'intstatus': (True, True)}
+OUTCOME_MODEL = {'done': (True, True), 'failupd': (True, False), 'intstatus': (True, True), 'nested': (True, True)}
 
 STATUS_NAMES = {1: 'WAITING', 2: 'PENDING', 3: 'DONE', 4: 'FAILED', 5: 'SKIPPED'}
 
@@ -138,6 +138,11 @@ class World:
                 kind, _, var = world.outcomes[self.idx].partition(':')
                 var = int(var or 0)
                 upd = {self.name: {'payload': k}}
+                if kind == 'nested':
+                    # a task that schedules a small graph of its own, with the default backend
+                    inner = world.Inner(f'inner_of_{self.name}')
+                    world.Scheduler(hard_graph=world.DepGraph.from_dependency_dictionary({inner: []})).schedule()
+                    return upd, TaskStatus.DONE
                 if kind == 'done' and var % 4 == 2:
                     # part of the update goes into the entries of the tasks that depend on this one
                     for dep_t in self.dependents:
@@ -178,6 +183,11 @@ class World:
                     return upd, [TaskStatus.WAITING, TaskStatus.PENDING, TaskStatus.SKIPPED, True][var % 4]
                 raise AssertionError(kind)
         self.Probe = Probe
+
+        class Inner(Task):
+            def do(self, env, config):
+                return {self.name: {'inner': True}}, TaskStatus.DONE
+        self.Inner = Inner
 
 
 class BadStr(Exception):
@@ -391,8 +401,13 @@ def run_history(world, case):
                 # the same Scheduler object (and backend) schedules again
                 backend, sched = reuse_box['backend'], reuse_box['sched']
             else:
-                backend = world.queue_mod.QueueScheduling(n_workers=case['workers'])
-                sched = world.Scheduler(hard_graph=run_hard_g, soft_graph=run_soft_g, backend=backend)
+                if case.get('default_backend'):
+                    # no backend argument: the Scheduler creates its default one
+                    sched = world.Scheduler(hard_graph=run_hard_g, soft_graph=run_soft_g)
+                    backend = sched.backend
+                else:
+                    backend = world.queue_mod.QueueScheduling(n_workers=case['workers'])
+                    sched = world.Scheduler(hard_graph=run_hard_g, soft_graph=run_soft_g, backend=backend)
                 reuse_box['backend'], reuse_box['sched'] = backend, sched
             sched_box['backend'] = backend
             sched_box['order'] = [world.names[t.name] for t in sched.full_graph.topological_sort()] \
